@@ -374,6 +374,10 @@ func (e *Exec) execLoop(h *ssa.BasicBlock, loop map[*ssa.BasicBlock]bool, pre *S
 	head := pre.clone()
 	nb := TS.Fresh("allocbase", "Int")
 	head.assume(App(">=", "Bool", nb, e.allocTerm(head)))
+	allocLower[nb] = struct {
+		prev *Node
+		n    int
+	}{head.allocBase, head.allocN}
 	head.allocBase, head.allocN = nb, 0
 	var lk []interface{}
 	for k := range modL {
@@ -733,6 +737,7 @@ func (e *Exec) execInstr(s *State, ins ssa.Instruction) {
 			if onlyClosureEscapes(x) {
 				s.priv = append(s.priv, privCell{r, x})
 			}
+			e.initGhostFor(s, r, x.Type())
 		} else {
 			e.setReg(x, &LocalPtr{Cell: x})
 			s.locals[x] = e.zeroValue(t)
